@@ -735,9 +735,18 @@ theorem _root_.Taskpool.OKs.sawCancel {lost : Bool} {s : SoftP} (h : OKs lost s)
 
 /-- the worker observes a `CancelledError` at its suspension point — for the first and only time -/
 theorem good_workerCancelled {cap : Cap} {L R : Bool} (p : Pool) (t : Nat) (tk : PTask) (hg : Good cap L R p) (s : SoftP) (hc : p.Cur t s)
-    (hw : InWork s) (hsaw : s.nSaw = 0) (hspec : tk.cancelCb = s.cancelCb) (hnc : t ∉ p.cancelledR) :
+    (hw : InWork s) (hsaw : s.nSaw = 0) (hspec : tk.cancelCb = s.cancelCb) (hnc : t ∉ p.cancelledR)
+    (hph : s.phase = .inWorker) :
     Good cap L R (p.workerCancelled t tk) := by
   unfold workerCancelled
+  split
+  · -- the worker catches the `CancelledError` and goes on: nothing the invariants talk about changes
+    have t1 : Tame p ((p.logEv (Ev.resumed t)).modTask t fun k => { k with sawCancel := true }) :=
+      (tame_logEv p (Ev.resumed t)).trans (tame_modTask _ t _)
+    have hs : s.setPhase .inWorker = s := by rw [← hph]; rfl
+    refine (good_suspend _ t .inWorker (t1.good hg) s (t1.cur hc) (fun _ => hw.rel) (fun h => ?_) ?_ hw.nf).1
+    · rw [t1.can] at h; exact absurd h hnc
+    · rw [hs, t1.lost]; exact hc.ok hg
   simp only
   have t0 := tame_logEv p (Ev.sawCancel t)
   have hc0 := t0.cur hc
@@ -756,7 +765,7 @@ theorem good_stepInWorker {cap : Cap} {L R : Bool} (p : Pool) (t : Nat) (tk : PT
   unfold stepInWorker
   split
   · have t0 := tame_modTask p t (fun k => { k with mustCancel := false })
-    refine good_workerCancelled _ t tk (t0.good hg) s (t0.cur hc) hw ((hc.ok hg).s0 (Or.inr hph)) hspec ?_
+    refine good_workerCancelled _ t tk (t0.good hg) s (t0.cur hc) hw ((hc.ok hg).s0 (Or.inr hph)) hspec ?_ hph
     intro hmem
     obtain ⟨x, hx, hs⟩ := hc
     obtain ⟨y, hy, _, _, hni⟩ := hg.reg.can t hmem
